@@ -226,6 +226,10 @@ def _lin_cases(rng, tier, cs):
             b = _ivec(rng, m)
             x0 = _ivec(rng, n, -3, 3) if rng.random() < 0.8 else [0.0] * n
             niter = rng.choice([0, 1, 2, 3, 4, 6])
+            if solver != 'SLandweber':
+                # floats iterate on rounding noise once the exact recursion has stopped; that regime is
+                # probed separately (finding cgn-past-convergence-blowup), not part of the model comparison
+                niter = min(niter, min(m, n) + 1)
             omega = rng.choice(DY) / max(1.0, float(np.sum(M * M)))
             omega = float(2.0 ** np.round(np.log2(omega)))
             x = dom.element(x0)
@@ -673,8 +677,559 @@ def correspondence(rng, tier):
     return sets
 
 
+# ===================================================================== probes
+# The property itself evaluated on the real implementation.  Optimality is checked through
+# sub-gradient inclusion (distance of the required vector to the sub-differential computed by
+# hand below), never through a stored answer.
+EPS0 = 1e-7      # |x_i| below this counts as "at the kink" (only enlarges the sub-differential)
+
+
+class Term(object):
+    """A convex term: builds the odl functional and measures dist(v, d term(x))."""
+
+    def __init__(self, kind, c=1.0, b=None, lo=None, hi=None, parts=None):
+        self.kind, self.c, self.b, self.lo, self.hi, self.parts = kind, c, b, lo, hi, parts
+
+    def odl(self, space):
+        import odl
+        S = odl.solvers
+        k = self.kind
+        if k == 'zero':
+            return S.ZeroFunctional(space)
+        if k == 'box':
+            return S.IndicatorBox(space, self.lo, self.hi)
+        if k == 'sep':
+            return S.SeparableSum(*[t.odl(sp) for t, sp in zip(self.parts, space)])
+        if k == 'groupl1':
+            return self.c * S.GroupL1Norm(space)
+        if k == 'kl':
+            return S.KullbackLeibler(space, prior=space.element(self.b))
+        base = {'l1': S.L1Norm, 'l2sq': S.L2NormSquared, 'l2': S.L2Norm}[k](space)
+        f = self.c * base
+        if self.b is not None:
+            f = f.translated(_unflat(space, self.b))
+        return f
+
+    def sub_dist(self, space, x, v):
+        """Euclidean-type distance (space norm) from v to the sub-differential at x; inf if x is infeasible."""
+        import odl
+        k = self.kind
+        if k == 'sep':
+            return float(np.sqrt(sum(t.sub_dist(sp, xi, vi) ** 2
+                                     for t, sp, xi, vi in zip(self.parts, space, x, v))))
+        xa, va = _flat(x), _flat(v)
+        b = np.zeros_like(xa) if self.b is None else np.asarray(self.b, dtype=float)
+        w = _weights(space)
+        nrm = lambda a: float(np.sqrt(np.sum(w * a * a)))
+        if k == 'zero':
+            return nrm(va)
+        if k == 'l2sq':
+            return nrm(va - 2 * self.c * (xa - b))
+        if k == 'l1':
+            d = xa - b
+            r = np.where(np.abs(d) > EPS0, va - self.c * np.sign(d), np.maximum(np.abs(va) - self.c, 0.0))
+            return nrm(r)
+        if k == 'l2':
+            d = xa - b
+            nd = nrm(d)
+            if nd > EPS0:
+                return nrm(va - self.c * d / nd)
+            return max(nrm(va) - self.c, 0.0)
+        if k == 'box':
+            if np.any(xa < self.lo - EPS0) or np.any(xa > self.hi + EPS0):
+                return float('inf')
+            at_lo, at_hi = xa <= self.lo + EPS0, xa >= self.hi - EPS0
+            r = np.where(at_lo & at_hi, 0.0, np.where(at_lo, np.maximum(va, 0.0),
+                                                      np.where(at_hi, np.minimum(va, 0.0), va)))
+            return nrm(r)
+        if k == 'groupl1':
+            n = _size(space[0])
+            X = xa.reshape(len(space), n)
+            Vv = va.reshape(len(space), n)
+            pn = np.sqrt(np.sum(X * X, axis=0))
+            vn = np.sqrt(np.sum(Vv * Vv, axis=0))
+            safe = np.where(pn > EPS0, pn, 1.0)
+            r = np.where(pn > EPS0, np.sqrt(np.sum((Vv - self.c * X / safe) ** 2, axis=0)),
+                         np.maximum(vn - self.c, 0.0))
+            w0 = _weights(space[0])
+            return float(np.sqrt(np.sum(w0 * r * r)))
+        if k == 'kl':
+            if np.any(xa <= 0):
+                return float('inf')
+            return nrm(va - (1.0 - b / xa))
+        raise ValueError(k)
+
+    def __repr__(self):
+        return 'Term(%r, c=%r, b=%r, lo=%r, hi=%r, parts=%r)' % (self.kind, self.c, self.b, self.lo, self.hi, self.parts)
+
+
+def _rand_term(rng, space, kinds, strong=False):
+    n = _size(space)
+    k = rng.choice(kinds)
+    if k == 'zero':
+        return Term('zero')
+    if k == 'box':
+        lo = float(rng.randint(-3, 0))
+        return Term('box', lo=lo, hi=lo + float(rng.randint(1, 4)))
+    c = rng.choice([1.0, 0.5, 2.0])
+    b = _ivec(rng, n, -3, 3) if rng.random() < 0.7 else None
+    return Term(k, c=c, b=b)
+
+
+def _true_opnorm(op):
+    """largest singular value of op between the (weighted) spaces"""
+    M = _matrix(op)
+    wd, wr = _weights(op.domain), _weights(op.range)
+    return float(np.linalg.norm(np.sqrt(wr)[:, None] * M / np.sqrt(wd)[None, :], 2))
+
+
+def _probe_operator(rng, n, kinds=('matrix', 'matrix-ill', 'gradient', 'pderiv', 'broadcast', 'matrix-weighted')):
+    import odl
+    k = rng.choice(kinds)
+    if k == 'matrix':
+        return odl.MatrixOperator(_imat(rng, rng.randint(1, 4), n)), k
+    if k == 'matrix-ill':
+        m = max(n, 2)
+        U = _imat(rng, m, m, -2, 2) + 3 * np.eye(m)
+        return odl.MatrixOperator(U.dot(np.diag([1.0] * (m - 1) + [float(rng.choice([16, 64]))]))), k
+    if k == 'matrix-weighted':
+        w = rng.choice([2.0, 0.5])
+        m = rng.randint(1, 3)
+        return odl.MatrixOperator(_imat(rng, m, n), odl.rn(n, weighting=w), odl.rn(m, weighting=w)), k
+    if k == 'gradient':
+        sp = odl.uniform_discr(0, max(n, 2) * rng.choice([1.0, 0.5]), max(n, 2))
+        return odl.Gradient(sp, pad_mode=rng.choice(['constant', 'symmetric'])), k
+    if k == 'pderiv':
+        sp = odl.uniform_discr(0, max(n, 2), max(n, 2))
+        return odl.PartialDerivative(sp, 0, pad_mode='constant'), k
+    sp = odl.rn(n)
+    return odl.BroadcastOperator(rng.choice([1.0, 2.0]) * odl.IdentityOperator(sp),
+                                 odl.MatrixOperator(_imat(rng, rng.randint(1, 3), n))), k
+
+
+def _mono(vals, rel=1e-10):
+    """non-increasing up to rounding"""
+    return all(b <= a + rel * (abs(a) + 1e-300) + 1e-13 for a, b in zip(vals, vals[1:]))
+
+
+def _P(out, ok, key, what, replay=None, detail=None):
+    out.append(C.Probe(bool(ok), key, what, replay, detail))
+
+
+def _replay_lin(solver, M, dk, wconst, b, x0, niter, omega=None):
+    return ("import odl, numpy as np\nM=np.array(%r)\n" % (M.tolist(),) +
+            ("dom=odl.rn(M.shape[1]); ran=odl.rn(M.shape[0])\n" if wconst is None else
+             "dom=odl.rn(M.shape[1],weighting=%r); ran=odl.rn(M.shape[0],weighting=%r)\n" % (wconst, wconst)) +
+            "op=odl.MatrixOperator(M,dom,ran); x=dom.element(%r); rhs=ran.element(%r); vals=[]\n" % (x0, b) +
+            {'landweber': "cb=lambda z: vals.append(float((op(z)-rhs).norm()))\ncb(x)\nodl.solvers.landweber(op,x,rhs,%d,omega=%r,callback=cb)\n" % (niter, omega),
+             'cgn': "cb=lambda z: vals.append(float((op(z)-rhs).norm()))\ncb(x)\nodl.solvers.conjugate_gradient_normal(op,x,rhs,%d,callback=cb)\n" % niter,
+             'cg': "xs=dom.element(np.linalg.solve(M,np.array(%r)))\ncb=lambda z: vals.append(float((z-xs).inner(op(z-xs))))\ncb(x)\nodl.solvers.conjugate_gradient(op,x,rhs,%d,callback=cb)\n" % (b, niter)}[solver] +
+            "observed=vals\nok=all(b<=a*(1+1e-9)+1e-12 for a,b in zip(vals,vals[1:]))\n")
+
+
+def _linear_probes(rng, tier, out):
+    import odl
+    S = odl.solvers
+    from odl.operator.oputils import power_method_opnorm
+    N = 12 if tier == 'quick' else 60
+    for _ in range(N):
+        n = rng.randint(1, 5)
+        wconst = rng.choice([None, None, 2.0, 0.25])
+        dom = odl.rn(n) if wconst is None else odl.rn(n, weighting=wconst)
+        dk = 'rn' if wconst is None else 'rn-weighted'
+        ill = rng.random() < 0.4
+        # --- conjugate gradient: energy error decreases each step, exact after n steps
+        Sm = _spd(rng, n, ill=ill)
+        op = odl.MatrixOperator(Sm, dom, dom)
+        b = _ivec(rng, n)
+        x0 = _ivec(rng, n, -3, 3)
+        xs = dom.element(np.linalg.solve(Sm, np.array(b)))
+        rhs = dom.element(b)
+        vals = []
+        cb = lambda z: vals.append(float((z - xs).inner(op(z - xs))))
+        x = dom.element(x0)
+        cb(x)
+        S.conjugate_gradient(op, x, rhs, n, callback=cb)
+        _P(out, _mono(vals, 1e-9), 'cg-energy-decrease-%s' % dk,
+           'conjugate_gradient: energy-norm error non-increasing (n=%d, %s)' % (n, 'ill' if ill else 'well'),
+           _replay_lin('cg', Sm, dk, wconst, b, x0, n), {'vals': vals})
+        e0 = max(vals[0], 1e-300)
+        cond = float(np.linalg.cond(Sm))
+        _P(out, vals[-1] <= 1e-9 * cond * cond * e0 + 1e-18 or len(vals) <= n,
+           'cg-exact-after-n-steps-%s' % dk,
+           'conjugate_gradient: exact (energy error at rounding level) after dimension-many steps',
+           _replay_lin('cg', Sm, dk, wconst, b, x0, n).replace(
+               "ok=all(b<=a*(1+1e-9)+1e-12 for a,b in zip(vals,vals[1:]))",
+               "ok=vals[-1] <= 1e-9*np.linalg.cond(M)**2*max(vals[0],1e-300)+1e-18"), {'vals': vals, 'cond': cond})
+        # --- CGN and Landweber: residual never increases
+        m = rng.randint(1, 5)
+        M = _imat(rng, m, n)
+        if ill and m >= 2 and n >= 2:
+            M[0, :] = M[0, :] * 32
+        ran = odl.rn(m) if wconst is None else odl.rn(m, weighting=wconst)
+        op = odl.MatrixOperator(M, dom, ran)
+        b = _ivec(rng, m)
+        rhs = ran.element(b)
+        for solver in ('cgn', 'landweber'):
+            vals = []
+            cb = lambda z: vals.append(float((op(z) - rhs).norm()))
+            x = dom.element(x0)
+            cb(x)
+            niter = rng.choice([3, 8, 20])
+            if solver == 'cgn':
+                # budgets up to the dimension; iterating a converged float CGN further is finding
+                # cgn-past-convergence-blowup (separate deterministic probe below)
+                niter = rng.randint(1, min(m, n))
+                S.conjugate_gradient_normal(op, x, rhs, niter, callback=cb)
+                om = None
+            else:
+                om = rng.choice([2.0, 1.0, 0.5, 1.9999]) / _true_opnorm(op) ** 2
+                S.landweber(op, x, rhs, niter, omega=om, callback=cb)
+            _P(out, _mono(vals, 1e-9), '%s-residual-%s' % (solver, dk),
+               '%s: residual norm non-increasing (%dx%d, omega=%r)' % (solver, m, n, om),
+               _replay_lin(solver, M, dk, wconst, b, x0, niter, om), {'vals': vals})
+        # --- Kaczmarz on a consistent system: distance to the solution used to build it
+        xs = dom.element(_ivec(rng, n, -3, 3))
+        ops, rh, oms = [], [], []
+        for _i in range(rng.randint(1, 3)):
+            Mi = _imat(rng, rng.randint(1, 3), n)
+            rani = odl.rn(Mi.shape[0]) if wconst is None else odl.rn(Mi.shape[0], weighting=wconst)
+            oi = odl.MatrixOperator(Mi, dom, rani)
+            ops.append(oi)
+            rh.append(oi(xs))
+            oms.append(rng.choice([2.0, 1.0, 0.3]) / _true_opnorm(oi) ** 2)
+        vals = []
+        cb = lambda z: vals.append(float((z - xs).norm()))
+        x = dom.element(x0)
+        cb(x)
+        S.kaczmarz(ops, x, rh, rng.choice([2, 5]), omega=oms, callback=cb, callback_loop=rng.choice(['inner', 'outer']))
+        rp = ("import odl, numpy as np\ndom=%s\nMs=%r; oms=%r\nxs=dom.element(%r); x=dom.element(%r)\n"
+              "ops=[odl.MatrixOperator(np.array(M),dom,%s) for M in Ms]\nrh=[o(xs) for o in ops]; vals=[]\n"
+              "cb=lambda z: vals.append(float((z-xs).norm()))\ncb(x)\nodl.solvers.kaczmarz(ops,x,rh,5,omega=oms,callback=cb,callback_loop='inner')\n"
+              "observed=vals\nok=all(b<=a*(1+1e-9)+1e-12 for a,b in zip(vals,vals[1:]))\n"
+              % ('odl.rn(%d)' % n if wconst is None else 'odl.rn(%d,weighting=%r)' % (n, wconst),
+                 [_matrix(o).tolist() for o in ops], oms, _flat(xs).tolist(), x0,
+                 'odl.rn(len(M))' if wconst is None else 'odl.rn(len(M),weighting=%r)' % wconst))
+        _P(out, _mono(vals, 1e-9), 'kaczmarz-distance-%s' % dk,
+           'kaczmarz: distance to a solution of a consistent system non-increasing', rp, {'vals': vals})
+        # --- power method never exceeds the true norm
+        L, lk = _probe_operator(rng, n, ('matrix', 'matrix-ill', 'gradient', 'pderiv', 'matrix-weighted'))
+        true = _true_opnorm(L)
+        np.random.seed(rng.randrange(2 ** 31))
+        xst = L.domain.element(_unflat(L.domain, [float(rng.randint(-3, 3)) or 1.0 for _ in range(_size(L.domain))]))
+        try:
+            est = float(power_method_opnorm(L, xstart=xst, maxiter=rng.choice([2, 4, 10, 100])))
+        except ValueError:          # start vector in the kernel: the code raises, nothing is returned
+            est = 0.0
+        _P(out, est <= true * (1 + 1e-9) + 1e-12, 'power-method-le-norm-normal-%s' % lk,
+           'power_method_opnorm(%s) = %r <= largest singular value %r' % (lk, est, true), None,
+           {'M': _matrix(L).tolist(), 'est': est, 'true': true})
+        Sy = _spd(rng, n) - float(rng.randint(0, 3)) * np.eye(n)
+
+        class SelfAdj(odl.Operator):
+            def __init__(self, mo):
+                super(SelfAdj, self).__init__(mo.domain, mo.range, linear=True)
+                self.mo = mo
+
+            def _call(self, x, out):
+                self.mo(x, out=out)
+
+            @property
+            def adjoint(self):
+                return self
+        so = SelfAdj(odl.MatrixOperator(Sy, dom, dom))
+        try:
+            est = float(power_method_opnorm(so, xstart=dom.element([1.0] * n), maxiter=rng.choice([1, 3, 10, 100])))
+        except ValueError:
+            est = 0.0
+        true = float(np.max(np.abs(np.linalg.eigvalsh(Sy))))
+        rp = ("import odl, numpy as np\nS=np.array(%r)\nclass SA(odl.Operator):\n def __init__(s,mo):\n  super(SA,s).__init__(mo.domain,mo.range,linear=True); s.mo=mo\n"
+              " def _call(s,x,out):\n  s.mo(x,out=out)\n adjoint=property(lambda s: s)\n"
+              "from odl.operator.oputils import power_method_opnorm\nobserved=float(power_method_opnorm(SA(odl.MatrixOperator(S)),xstart=[1.0]*len(S),maxiter=10))\n"
+              "expected=float(np.max(np.abs(np.linalg.eigvalsh(S))))\nok=observed<=expected*(1+1e-9)+1e-12\n" % (Sy.tolist(),))
+        _P(out, est <= true * (1 + 1e-9) + 1e-12, 'power-method-le-norm-selfadjoint-%s' % dk,
+           'power_method_opnorm (self-adjoint branch) = %r <= spectral radius %r' % (est, true), rp)
+
+
+def _cgn_blowup_probe(out):
+    rp = ("import odl, numpy as np\nop=odl.MatrixOperator(np.array([[2.,2.],[-1.,0.],[2.,-1.]])); rhs=op.range.element([3.,3.,-3.])\n"
+          "x=op.domain.element([-3.,-1.]); vals=[]\ncb=lambda z: vals.append(float((op(z)-rhs).norm()))\ncb(x)\n"
+          "try:\n    odl.solvers.conjugate_gradient_normal(op,x,rhs,20,callback=cb)\nexcept OverflowError:\n    vals.append(float('inf'))\n"
+          "observed=vals; ok=all(b<=a*(1+1e-9)+1e-12 for a,b in zip(vals,vals[1:]))\n")
+    env = {}
+    exec(rp, env)
+    _P(out, env['ok'], 'cgn-past-convergence-blowup',
+       'conjugate_gradient_normal, 3x2 inconsistent system, niter=20: residual norm never increases '
+       '(observed max %.3g after min %.3g)' % (max(env['vals']), min(env['vals'])), rp)
+
+
+def _descent_probes(rng, tier, out):
+    import odl
+    from odl.solvers.util.steplen import BacktrackingLineSearch
+    N = 12 if tier == 'quick' else 60
+    for _ in range(N):
+        n = rng.randint(1, 4)
+        f, _ot, od = _objective(rng, max(n, 2) if rng.random() < 0.4 else n)
+        sp = f.domain
+        x0 = [float(rng.randint(-20, 20)) / 8 for _ in range(_size(sp))]
+        tau = rng.choice([0.5, 0.3, 0.8])
+        disc = rng.choice([0.01, 0.3, 0.0])
+        est = rng.random() < 0.5
+        vals = []
+        cb = lambda z: vals.append(float(f(z)))
+        x = sp.element(x0)
+        cb(x)
+        ls = BacktrackingLineSearch(f, tau=tau, discount=disc, estimate_step=est)
+        err = None
+        try:
+            odl.solvers.steepest_descent(f, x, line_search=ls, maxiter=rng.choice([5, 30]), callback=cb)
+        except (ValueError, AssertionError) as e:
+            err = type(e).__name__
+        kind = 'rosenbrock' if 'rosenbrock' in od else 'quadratic-' + od['quadratic']
+        ok = all(b <= a for a, b in zip(vals, vals[1:]))
+        _P(out, ok, 'steepest-descent-backtracking-%s' % kind,
+           'steepest_descent + BacktrackingLineSearch(tau=%r, discount=%r, estimate_step=%r): objective never increases (%s)'
+           % (tau, disc, est, err or 'no error'), None, {'objective': od, 'x0': x0, 'vals': vals[:8]})
+
+
+def _kkt_pd(L, fT, gT, x, y):
+    """primal-dual optimality residual of  min f(x) + g(Lx):  dist(-L^* y, df(x)) + dist(y, dg(Lx))"""
+    return fT.sub_dist(L.domain, x, -L.adjoint(y)) + gT.sub_dist(L.range, L(x), y)
+
+
+def _g_for(rng, L):
+    import odl
+    if isinstance(L.range, odl.ProductSpace) and L.range.is_power_space and hasattr(L, 'partials'):
+        return Term('groupl1', c=rng.choice([1.0, 0.5]))
+    if isinstance(L.range, odl.ProductSpace):
+        return Term('sep', parts=[_rand_term(rng, sp, ['l1', 'l2sq', 'l2']) for sp in L.range])
+    return _rand_term(rng, L.range, ['l1', 'l2sq', 'l2', 'box'])
+
+
+def _nonsmooth_probes(rng, tier, out):
+    import odl
+    S = odl.solvers
+    N = 10 if tier == 'quick' else 50
+    NIT = 3000
+    for _ in range(N):
+        # ---------------- PDHG on f(x) + g(Lx), duals observable
+        n = rng.randint(1, 4)
+        L, lk = _probe_operator(rng, n, ('matrix', 'gradient', 'pderiv', 'broadcast', 'matrix-weighted'))
+        fT = _rand_term(rng, L.domain, ['l2sq', 'l2sq', 'l1', 'box'])
+        if fT.kind != 'l2sq' and rng.random() < 0.5:
+            fT = Term('l2sq', c=1.0, b=_ivec(rng, _size(L.domain), -3, 3))
+        gT = _g_for(rng, L)
+        if gT.kind == 'box' and fT.kind == 'box':
+            gT = Term('l1', c=1.0, b=_ivec(rng, _size(L.range), -2, 2))
+        f, g = fT.odl(L.domain), gT.odl(L.range)
+        nrm = _true_opnorm(L)
+        tau = rng.choice([1.0, 0.3, 3.0]) / nrm
+        sigma = 0.95 / (tau * nrm * nrm)
+        x = _unflat(L.domain, _ivec(rng, _size(L.domain), -3, 3))
+        y = L.range.zero()
+        xr = x.copy()
+        r0 = _kkt_pd(L, fT, gT, x, y)
+        S.pdhg(x, f, g, L, NIT, tau=tau, sigma=sigma, x_relax=xr, y=y)
+        r1 = _kkt_pd(L, fT, gT, x, y)
+        okc = r1 <= 1e-5 * (1 + r0) or not np.isfinite(r0)
+        _P(out, okc, 'pdhg-kkt-%s-f:%s-g:%s' % (lk, fT.kind, gT.kind),
+           'pdhg drives (x, y) to a KKT point: residual %.3g -> %.3g' % (r0, r1), None,
+           {'L': _matrix(L).tolist(), 'f': repr(fT), 'g': repr(gT), 'tau': tau, 'sigma': sigma})
+        # fixed point: restart from the reached pair, one more step must not move it (when converged)
+        if r1 <= 1e-9:
+            x2, y2, xr2 = x.copy(), y.copy(), x.copy()
+            S.pdhg(x2, f, g, L, 3, tau=tau, sigma=sigma, x_relax=xr2, y=y2)
+            _P(out, (x2 - x).norm() <= 1e-7 * (1 + x.norm()) and (y2 - y).norm() <= 1e-7 * (1 + y.norm()),
+               'pdhg-fixed-point-%s' % lk, 'pdhg leaves a KKT pair unchanged', None)
+    for _ in range(N):
+        # ---------------- constructed solutions: (xs, ys) chosen first, functionals built around them
+        n = rng.randint(1, 4)
+        sp = odl.rn(n)
+        M = _imat(rng, rng.randint(1, 3), n, -2, 2)
+        L = odl.MatrixOperator(M)
+        xs = sp.element(_ivec(rng, n, -3, 3))
+        ys = L.range.element([float(rng.randint(-4, 4)) / 4 for _ in range(M.shape[0])])
+        cf = rng.choice([0.5, 1.0])
+        a = xs + L.adjoint(ys) / (2 * cf)                 # grad f(xs) = 2 cf (xs - a) = -L^* ys
+        fT = Term('l2sq', c=cf, b=_flat(a).tolist())
+        gT = Term('l1', c=1.0, b=_flat(L(xs)).tolist())    # ys in [-1,1]^m = d|.|_1 at the kink
+        assert _kkt_pd(L, fT, gT, xs, ys) < 1e-12
+        f, g = fT.odl(sp), gT.odl(L.range)
+        tau, sigma = rng.choice(DY), rng.choice(DY)
+        x, y, xr = xs.copy(), ys.copy(), xs.copy()
+        tr = []
+        S.pdhg(x, f, g, L, 4, tau=tau, sigma=sigma, x_relax=xr, y=y, theta=rng.choice([1.0, 0.5, 0.0]),
+               callback=lambda z: tr.append(float((z - xs).norm())))
+        rp = ("import odl, numpy as np\nsp=odl.rn(%d); L=odl.MatrixOperator(np.array(%r))\nxs=sp.element(%r); ys=L.range.element(%r)\n"
+              "f=(%r*odl.solvers.L2NormSquared(sp)).translated(%r); g=odl.solvers.L1Norm(L.range).translated(L(xs))\n"
+              "x,y,xr=xs.copy(),ys.copy(),xs.copy()\nodl.solvers.pdhg(x,f,g,L,4,tau=%r,sigma=%r,x_relax=xr,y=y)\n"
+              "observed=float((x-xs).norm()+(y-ys).norm()); ok=observed<=1e-9\n"
+              % (n, M.tolist(), _flat(xs).tolist(), _flat(ys).tolist(), cf, _flat(a).tolist(), tau, sigma))
+        _P(out, max(tr) <= 1e-9 and (y - ys).norm() <= 1e-9, 'pdhg-solution-fixed-point',
+           'pdhg started at a constructed KKT pair stays there (tau=%r, sigma=%r)' % (tau, sigma), rp)
+        # proximal gradient / accelerated: f = c|x - xs|_1 with c >= |grad g(xs)|_inf, g smooth
+        b = _ivec(rng, M.shape[0], -3, 3)
+        gsm = 0.5 * S.L2NormSquared(L.range).translated(b) * L
+        gr = _flat(gsm.gradient(xs))
+        c = float(np.max(np.abs(M.T.dot(M.dot(_flat(xs)) - np.array(b))))) + rng.choice([0.0, 0.5])
+        fT = Term('l1', c=max(c, 0.25), b=_flat(xs).tolist())
+        assert fT.sub_dist(sp, xs, sp.element(-(M.T.dot(M.dot(_flat(xs)) - np.array(b))))) < 1e-12
+        f = fT.odl(sp)
+        gamma = rng.choice(DY)
+        for nm, solver in (('proximal_gradient', S.proximal_gradient), ('accelerated_proximal_gradient', S.accelerated_proximal_gradient)):
+            x = xs.copy()
+            tr = []
+            solver(x, f, gsm, gamma, 4, callback=lambda z: tr.append(float((z - xs).norm())))
+            _P(out, max(tr) <= 1e-9, '%s-solution-fixed-point' % nm,
+               '%s started at a point with -grad g(x) in df(x) stays there (gamma=%r)' % (nm, gamma), None,
+               {'M': M.tolist(), 'b': b, 'xs': _flat(xs).tolist(), 'c': fT.c, 'moved': tr})
+        # solvers with internal, zero-initialised duals: solutions with zero dual and L xs = 0
+        f0 = Term('l1', c=1.0, b=None) if rng.random() < 0.5 else Term('l2sq', c=1.0, b=None)
+        g0 = Term(rng.choice(['l1', 'l2sq', 'l2']), c=1.0, b=None)
+        f, g = f0.odl(sp), g0.odl(L.range)
+        zero = sp.zero()
+        tr = []
+        x = zero.copy()
+        S.admm_linearized(x, f, g, L, rng.choice(DY), rng.choice(DY), 3, callback=lambda z: tr.append(float(z.norm())))
+        _P(out, max(tr) <= 1e-12, 'admm_linearized-solution-fixed-point', 'admm_linearized started at the common minimiser 0 stays there', None)
+        tr = []
+        x = zero.copy()
+        S.douglas_rachford_pd(x, f, [g], [L], 3, tau=rng.choice(DY), sigma=[rng.choice(DY)], callback=lambda z: tr.append(float(z.norm())))
+        _P(out, max(tr) <= 1e-12 and x.norm() <= 1e-12, 'douglas_rachford_pd-solution-fixed-point',
+           'douglas_rachford_pd started at the common minimiser 0 stays there', None)
+        tr = []
+        x = zero.copy()
+        S.forward_backward_pd(x, f, [g], [L], S.L2NormSquared(sp), rng.choice(DY), [rng.choice(DY)], 3,
+                              callback=lambda z: tr.append(float(z.norm())))
+        _P(out, max(tr) <= 1e-12, 'forward_backward_pd-solution-fixed-point',
+           'forward_backward_pd started at the common minimiser 0 stays there', None)
+    # ---------------- convergence through the primal inclusion (g differentiable => dual determined)
+    for _ in range(N):
+        n = rng.randint(1, 4)
+        sp = odl.rn(n)
+        M = _imat(rng, rng.randint(1, 3), n, -2, 2)
+        L = odl.MatrixOperator(M)
+        nrm = _true_opnorm(L)
+        fT = _rand_term(rng, sp, ['l1', 'box', 'l2sq', 'l2'])
+        cg = rng.choice([0.5, 1.0])
+        bg = _ivec(rng, M.shape[0], -3, 3)
+        gT = Term('l2sq', c=cg, b=bg)
+        f, g = fT.odl(sp), gT.odl(L.range)
+
+        def resid(z):
+            yy = 2 * cg * (L(z) - L.range.element(bg))          # the only element of dg(Lz)
+            return fT.sub_dist(sp, z, -L.adjoint(yy))
+        x0 = _ivec(rng, n, -3, 3)
+        r0 = resid(sp.element(x0))
+        det = {'M': M.tolist(), 'f': repr(fT), 'g': repr(gT), 'x0': x0}
+        # admm_linearized: needs tau |L|^2 <= sigma
+        sigma = rng.choice([1.0, 0.5, 2.0])
+        tau = 0.95 * sigma / nrm ** 2
+        x = sp.element(x0)
+        S.admm_linearized(x, f, g, L, tau, sigma, NIT)
+        r1 = resid(x)
+        _P(out, r1 <= 1e-5 * (1 + r0), 'admm_linearized-kkt-f:%s' % fT.kind,
+           'admm_linearized: optimality residual %.3g -> %.3g' % (r0, r1), None, det)
+        # douglas_rachford_pd: tau * sigma * |L|^2 < 4
+        tau = rng.choice([1.0, 0.3]) / nrm
+        sigma = 3.5 / (tau * nrm ** 2)
+        x = sp.element(x0)
+        S.douglas_rachford_pd(x, f, [g], [L], NIT, tau=tau, sigma=[sigma])
+        r1 = resid(x)
+        _P(out, r1 <= 1e-5 * (1 + r0), 'douglas_rachford_pd-kkt-f:%s' % fT.kind,
+           'douglas_rachford_pd: optimality residual %.3g -> %.3g' % (r0, r1), None, det)
+        # proximal gradient on f + (g o L): gamma < 2 / (2 cg |L|^2)
+        gs = g * L
+        gamma = rng.choice([0.9, 0.5]) / (2 * cg * nrm ** 2)
+        for nm, solver, gam in (('proximal_gradient', S.proximal_gradient, 1.9 * gamma / 0.9 if rng.random() < 0.3 else gamma),
+                                ('accelerated_proximal_gradient', S.accelerated_proximal_gradient, gamma)):
+            x = sp.element(x0)
+            obj = []
+            solver(x, f, gs, gam, NIT, callback=(lambda z: obj.append(float(f(z) + gs(z)))) if nm == 'proximal_gradient' else None)
+            r1 = resid(x)
+            _P(out, r1 <= 1e-5 * (1 + r0), '%s-kkt-f:%s' % (nm, fT.kind),
+               '%s: optimality residual %.3g -> %.3g' % (nm, r0, r1), None, det)
+            if obj:
+                _P(out, _mono([float(f(sp.element(x0)) + gs(sp.element(x0)))] + obj, 1e-9) or not np.isfinite(obj[0]),
+                   'proximal_gradient-objective-decrease-f:%s' % fT.kind,
+                   'proximal_gradient with gamma <= 2/L never increases f + g', None, det)
+        # forward_backward_pd with h strongly convex part: min f + h + g(Lx), h = |x - c|^2 / 2
+        hb = _ivec(rng, n, -2, 2)
+        h = 0.5 * S.L2NormSquared(sp).translated(hb)
+        g2T = _rand_term(rng, L.range, ['l1', 'l2'])
+        g2 = g2T.odl(L.range)
+        sig = rng.choice([1.0, 0.5])
+        tau = 0.9 / (0.5 + sig * nrm ** 2)                   # 1/tau - sigma |L|^2 >= beta/2, beta = 1
+        x = sp.element(x0)
+        ytr = []
+        _fb_probe(out, rng, sp, L, fT, f, h, hb, g2T, g2, tau, sig, x0, NIT)
+    # the deterministic witness of finding forward_backward_pd-x_old-alias
+    rp = ("import odl\nsp=odl.rn(1); x=sp.element([1.0]); tr=[]\n"
+          "odl.solvers.forward_backward_pd(x, odl.solvers.ZeroFunctional(sp), [odl.solvers.IndicatorZero(sp)], [odl.IdentityOperator(sp)],\n"
+          "    odl.solvers.ZeroFunctional(sp), tau=0.5, sigma=[0.5], niter=200, callback=lambda z: tr.append(abs(float(z[0]))))\n"
+          "observed=max(tr[-20:]); expected='-> 0 (unique solution x = 0)'; ok=observed<1e-6\n")
+    env = {}
+    exec(rp, env)
+    _P(out, env['ok'], 'forward_backward_pd-x_old-alias',
+       'forward_backward_pd on f=h=0, g=indicator{0}, L=id, tau=sigma=1/2 converges to the solution 0 '
+       '(max |x| over the last 20 of 200 iterations: %r)' % env['observed'], rp)
+    # default step-size rules (exact operator norms given as numbers)
+    for _ in range(N):
+        Ln = rng.choice([0.5, 1.0, 3.0, 7.0])
+        t, s_ = S.pdhg_stepsize(Ln)
+        t2, s2 = S.pdhg_stepsize(Ln, tau=0.25)
+        t3, s3 = S.pdhg_stepsize(Ln, sigma=0.5)
+        ok = all(abs(a * b_ * Ln ** 2 - 0.9) < 1e-12 for a, b_ in ((t, s_), (t2, s2), (t3, s3))) and t2 == 0.25 and s3 == 0.5
+        _P(out, ok, 'pdhg_stepsize-rule', 'pdhg_stepsize: tau*sigma*|L|^2 = 0.9 < 1 in all three branches', None)
+        Ls = [rng.choice([0.5, 1.0, 3.0]) for _ in range(rng.randint(1, 3))]
+        ok = True
+        for kw in ({}, {'tau': 0.3}, {'sigma': [0.7] * len(Ls)}):
+            t, sg = S.douglas_rachford_pd_stepsize(Ls, **kw)
+            ok = ok and abs(t * sum(si * li ** 2 for si, li in zip(sg, Ls)) - 2.0) < 1e-12
+        _P(out, ok, 'douglas_rachford_pd_stepsize-rule', 'douglas_rachford_pd_stepsize: tau * sum sigma_i |L_i|^2 = 2 < 4', None)
+
+
+def _fb_reference(alias, proxf, gradh, L, proxgc, tau, sig, x0, niter):
+    """numpy re-statement of the two variants of the forward-backward PD step (used only to attribute a failure)"""
+    x = np.array(x0, dtype=float)
+    v = np.zeros(L.shape[0])
+    for _ in range(niter):
+        xn = proxf(x - tau * (gradh(x) + L.T.dot(v)))
+        y = xn if alias else 2 * xn - x
+        v = proxgc(v + sig * L.dot(y))
+        x = xn
+    return x
+
+
+def _fb_probe(out, rng, sp, L, fT, f, h, hb, g2T, g2, tau, sig, x0, NIT):
+    import odl
+    x = sp.element(x0)
+    vs = []
+    # the dual iterate is internal: recover it through the prox_cc_g call that writes it
+    odl.solvers.forward_backward_pd(x, f, [g2], [L], h, tau, [sig], NIT)
+    # optimality through the primal inclusion: exists y in dg2(Lx) with -(grad h + L^* y) in df(x).
+    # y is identified from the stationarity of the last dual update: y = prox_{sig g*}(y + sig L x)
+    y = L.range.zero()
+    for _ in range(200):
+        y = g2.convex_conj.proximal(sig)(y + sig * L(x))
+    gh = x - sp.element(hb)
+    r = fT.sub_dist(sp, x, -(gh + L.adjoint(y))) + g2T.sub_dist(L.range, L(x), y)
+    ok = r <= 1e-5
+    key = 'forward_backward_pd-kkt-f:%s-g:%s' % (fT.kind, g2T.kind)
+    if not ok and fb_alias_variant():
+        key = 'forward_backward_pd-x_old-alias'
+    _P(out, ok, key, 'forward_backward_pd (f + strongly convex h + g(Lx)): optimality residual %.3g' % r, None,
+       {'M': _matrix(L).tolist(), 'f': repr(fT), 'g': repr(g2T), 'tau': tau, 'sigma': sig, 'x0': x0})
+
+
 def probes(rng, tier):
-    return []
+    out = []
+    np.random.seed(rng.randrange(2 ** 31))
+    _linear_probes(rng, tier, out)
+    _cgn_blowup_probe(out)
+    _descent_probes(rng, tier, out)
+    _nonsmooth_probes(rng, tier, out)
+    return out
 
 
 LEVEL_TEXT = ''
